@@ -16,6 +16,8 @@ Non-interference argument in four structural legs:
                   all propagation; the per-request loop only writes attributes of its own request object.
  Rm memo          : every memoisation construct in the functions behind this property is keyed by everything it reads.
  Rp presence      : optional numeric fields are tested with `is None` / membership, never by truthiness (0 is a value).
+ R6 carried       : per-request loops carry no local from one iteration to the next (must-definition dataflow).
+ R7 defaults      : mutable defaults of the request parameter tables are copied per instance.
 """
 import ast
 
@@ -288,6 +290,58 @@ def r5_memo(ctx):
 
 
 
+def r6_carried(ctx):
+    """R6: the loops that handle one request per iteration (building the requests from JSON, propagating them, assigning their
+    spectrum) carry no local from one iteration to the next: must-definition dataflow over one iteration (gscan/carried.py);
+    arithmetic accumulators are not carried values, `x = new or x` is"""
+    from ..carried import carried_rule
+    carried_rule(ctx, 'R6.carried', {('gnpy.tools.json_io', 'requests_from_json'), ('gnpy.topology.request', 'compute_path_with_disjunction'),
+                                     ('gnpy.topology.spectrum_assignment', 'pth_assign_spectrum')},
+                 'a request would inherit a value of the request before it')
+    ctx.need('R6.carried', 3)
+
+
+def r7_defaults(ctx):
+    """R7: request parameter objects do not share their mutable defaults: where a default from the class-level default_values
+    table is stored on an instance, list / dict defaults are copied (the planner appends to nodes_list / loose_list in place)"""
+    repo = ctx.repo
+    tp = repo.module('gnpy.topology.topology_parameters')
+    base = tp.classes.get('BaseParams')
+    if base is None or 'update_attr' not in base.methods:
+        raise AnchorMissing('topology_parameters.BaseParams.update_attr')
+    mutable = []
+    for c in tp.classes.values():
+        dv = c.class_assigns.get('default_values')
+        if isinstance(dv, ast.Dict):
+            mutable += [k.value for k, v in zip(dv.keys, dv.values) if isinstance(v, (ast.List, ast.Dict)) and isinstance(k, ast.Constant)]
+    f = base.methods['update_attr']
+    loops = [n for n in walk_no_nested(f.node) if isinstance(n, ast.For) and 'default_values' in ast.unparse(n.iter) and
+             isinstance(n.target, ast.Tuple) and len(n.target.elts) == 2]
+    if len(loops) != 1:
+        raise CannotAnalyse('BaseParams.update_attr: loop over the default table')
+    kv, dv_ = loops[0].target.elts[0].id, loops[0].target.elts[1].id
+    n = 0
+    for c in [x for x in ast.walk(loops[0]) if isinstance(x, ast.Call) and getattr(x.func, 'id', '') == 'setattr' and len(x.args) == 3]:
+        val = c.args[2]
+        d = val.args[1] if isinstance(val, ast.Call) and isinstance(val.func, ast.Attribute) and val.func.attr == 'get' and len(val.args) == 2 else val
+        raw = isinstance(d, ast.Name) and d.id == dv_
+        copied = isinstance(d, ast.Call) and ast.unparse(d.func) in ('deepcopy', 'copy.deepcopy', 'copy', 'copy.copy') and ast.unparse(d.args[0]) == dv_
+        ok = copied
+        if raw:
+            # allowed only on the side of a test that excludes lists and dicts
+            g = enclosing(c, ast.If)
+            ok = g is not None and ast.unparse(g.test).replace(' ', '') in (f'isinstance({dv_},(list,dict))', f'isinstance({dv_},(dict,list))') and \
+                any(c is x for s_ in g.orelse for x in ast.walk(s_))
+        n += 1
+        ctx.check('R7.defaults', site(f, c), ok or not mutable, key(f, f'default|{ast.unparse(d)[:30]}'),
+                  f'the default of a parameter is stored on the instance without a copy although the tables hold mutable defaults {mutable[:4]}: '
+                  'all requests built without that field share ONE list, and the planner appends to it in place '
+                  '(the destinations of earlier requests become constraints of later ones)', ast.unparse(c)[:120])
+    ctx.check('R7.defaults', f'{site(f)} mutable defaults exist', bool(mutable), key(f, 'mutable-defaults'),
+              'no mutable default left in the request parameter tables (rule instance vanished)')
+    ctx.need('R7.defaults', 3)
+
+
 from ..memo import rule_for as _memo_rule
 
 RULES_MEMO = ('Rm.memo', _memo_rule('C16', 'requests would share a result'))
@@ -297,4 +351,4 @@ from ..presence import rule_for as _presence_rule
 
 RULES_PRESENCE = ('Rp.presence', _presence_rule('C16', 'a legal zero would be read as missing'))
 
-RULES = [('R5.memo', r5_memo), ('R1.isolation', r1_isolation), ('R2.no-leak', r2_no_leak), ('R3.redesign', r3_redesign), ('R4.shared', r4_shared), RULES_MEMO, RULES_PRESENCE]
+RULES = [('R5.memo', r5_memo), ('R1.isolation', r1_isolation), ('R2.no-leak', r2_no_leak), ('R3.redesign', r3_redesign), ('R4.shared', r4_shared), RULES_MEMO, RULES_PRESENCE, ('R6.carried', r6_carried), ('R7.defaults', r7_defaults)]
